@@ -11,7 +11,7 @@ from .xlref.values import outcome_matches
 
 def judge_book(ctx, prop, spec, targets, valuations, *, exact=False, err_exact=False, classify=None, nontrivial=None,
                name='wb', monitor='reference-model', strict_text=False, runtime_monitor=True, now=None, per_cell=False,
-               case_extra=None, on_result=None, empty_text_is_blank=False, same_executor=True):
+               case_extra=None, on_result=None, empty_text_is_blank=False, same_executor=True, flag_consistency=True):
     """targets: [(sheet_idx, addr)] formula cells to judge; valuations: list of [(sheet_idx, addr, value)] override lists.
     classify(case, out, outs) -> known-finding tag | None ; nontrivial(case, outs) -> bool"""
     r = ctx.r
@@ -61,6 +61,7 @@ def judge_book(ctx, prop, spec, targets, valuations, *, exact=False, err_exact=F
                 continue
             for fl in flags:
                 r.count('silent_clause:' + fl)
+            pending_flags = flags
             out = shared[(si, addr)] if shared is not None else book.value(si, addr, val)
             r.ev()
             case = {'formula': formula, 'cell': addr, 'sheet': si, 'overrides': val}
@@ -68,6 +69,9 @@ def judge_book(ctx, prop, spec, targets, valuations, *, exact=False, err_exact=F
                 case.update(case_extra)
             ok = outcome_matches(out, outs, exact=exact, err_exact=(err_exact(case) if callable(err_exact) else err_exact),
                                  empty_text_is_blank=empty_text_is_blank)
+            if ok and pending_flags and flag_consistency:
+                _note_flag_constraint(r, env_, titles[si], addr, pending_flags, out, formula, strict_text, exact,
+                                      (err_exact(case) if callable(err_exact) else err_exact), empty_text_is_blank)
             if on_result:
                 on_result(case, out, outs, ok)
             if not ok:
@@ -83,9 +87,69 @@ def judge_book(ctx, prop, spec, targets, valuations, *, exact=False, err_exact=F
     return book
 
 
+def _note_flag_constraint(r, env_, title, addr, flags, out, formula, strict_text, exact, err_exact, empty_text_is_blank):
+    """Where the statement is silent the reference accepts every reading (outcome set). The library may pick any reading, but it
+    has to pick ONE: for each judged execution the set of flag assignments under which the reference reproduces the observed
+    value is recorded; finish() then looks for one assignment of all flags that explains every execution of the run."""
+    import itertools
+    import json
+    sat = []
+    for combo in itertools.product([False, True], repeat=len(flags)):
+        try:
+            v, _ = evalr.evaluate_once(env_, title, addr, dict(zip(flags, combo)), strict_text=strict_text)
+        except Exception:
+            continue
+        if outcome_matches(out, [v], exact=exact, err_exact=err_exact, empty_text_is_blank=empty_text_is_blank):
+            sat.append(''.join('1' if b else '0' for b in combo))
+    if not sat or len(sat) == 2 ** len(flags):
+        return
+    sig = json.dumps([list(flags), sat])
+    s0 = r.sets.setdefault('flag_constraints', set())
+    if sig not in s0 and len(s0) < 400:
+        s0.add(sig)
+        r.sets.setdefault('flag_constraint_examples', set()).add(json.dumps([sig, str(formula)[:80]]))
+
+
+def flag_consistency_verdict(r, prop):
+    """called from a check's finish(): is there one reading of the silent clauses that explains all recorded executions?"""
+    import itertools
+    import json
+    cons = [json.loads(x) for x in r.sets.get('flag_constraints', ())]
+    if not cons:
+        return {'silent_clause_constraints': 0}
+    allflags = sorted({f for fl, _ in cons for f in fl})
+    examples = {}
+    for x in r.sets.get('flag_constraint_examples', ()):
+        sig, formula = json.loads(x)
+        examples.setdefault(sig, formula)
+    ok_assignments = []
+    if len(allflags) <= 12:
+        for combo in itertools.product('01', repeat=len(allflags)):
+            a = dict(zip(allflags, combo))
+            if all(''.join(a[f] for f in fl) in sat for fl, sat in cons):
+                ok_assignments.append(a)
+    else:
+        ok_assignments = [None]
+    if not ok_assignments:
+        # witness: a flag that one execution needs to be on and another needs to be off
+        witness = None
+        for f in allflags:
+            need1 = [(fl, sat) for fl, sat in cons if f in fl and all(s_[fl.index(f)] == '1' for s_ in sat)]
+            need0 = [(fl, sat) for fl, sat in cons if f in fl and all(s_[fl.index(f)] == '0' for s_ in sat)]
+            if need1 and need0:
+                witness = {'silent_clause': f, 'needs_reading_on': examples.get(json.dumps(need1[0])), 'needs_reading_off': examples.get(json.dumps(need0[0]))}
+                break
+        r.violation('silent-clause-consistency', {'flags': allflags, 'witness': witness, 'constraints': len(cons), 'no_replay': True},
+                    'no single reading of the clauses the statement leaves open explains all executions of this run', 'one reading per silent clause')
+    return {'silent_clause_constraints': len(cons), 'silent_clause_readings_consistent_with_all_executions': ok_assignments[:4] if ok_assignments and ok_assignments[0] else []}
+
+
 def replay_case(ctx, prop, case, **kw):
     """re-run one recorded case (needs case['spec'])"""
     from .wbspec import dec
+    if case.get('no_replay'):
+        ctx.r.inconcl('a consistency verdict over a whole run has no single replayable case: re-run the check with the recorded VERIF_SEED')
+        return None
     spec = case['spec']
     val = [(s, a, dec(v)) for (s, a, v) in case.get('overrides', [])]
     return judge_book(ctx, prop, spec, [(case['sheet'], case['cell'])], [val], name='replay', **kw)
